@@ -65,8 +65,22 @@
 #define VP_OP_ID 6
 
 /* ---- the cache object and the ghost ------------------------------------ */
+/* VP_API: the operation goes through the public ldb_lru_* function on a
+   whole cache object (16 shards, the others empty); otherwise the shard-level
+   function the public one forwards to (lru_shard_*) is run on a stand-alone
+   shard object (much smaller formula: the 16-shard object makes every field
+   update expensive for the symbolic executor). */
+#ifdef VP_API
 static struct ldb_lru_s vp_lru;
 static lru_handle_t *vp_tab[LDB_SHARDS][VP_TABLEN];
+#define VP_SH (&vp_lru.shard[VP_S])
+#define VP_TAB (vp_tab[VP_S])
+#else
+static lru_shard_t vp_shard;
+static lru_handle_t *vp_tab1[VP_TABLEN];
+#define VP_SH (&vp_shard)
+#define VP_TAB vp_tab1
+#endif
 static lru_handle_t *ent[VP_NE];
 static uint8_t vp_valobj[VP_NE];
 
@@ -110,6 +124,17 @@ ldb_hash(const uint8_t *data, size_t size, uint32_t seed) {
     if (data[0] == k)
       h = vp_htab[k];
   return h;
+}
+
+/* Replaces the static ldb_lru_shard() of cache.c (goto-instrument
+   --replace-calls): same value, but a constant for the symbolic executor
+   (a symbolic index into the array of shards makes every field access a
+   byte-extract over the whole cache object).  That the real expression
+   hash >> (32 - LDB_SHARD_BITS) yields this shard is asserted here. */
+uint32_t
+vp_lru_shard(uint32_t hash) {
+  VP_ASSERT((hash >> (32 - LDB_SHARD_BITS)) == VP_S, "shard index is the top LDB_SHARD_BITS bits of the hash");
+  return VP_S;
 }
 
 /* ---- allocator ---------------------------------------------------------- */
@@ -213,15 +238,17 @@ vp_walk_list(lru_handle_t *head, int inuse) {
 
 static void
 vp_inv(void) {
-  lru_shard_t *sh = &vp_lru.shard[VP_S];
+  lru_shard_t *sh = VP_SH;
   int j, i, b, steps, k, kk;
   unsigned seen = 0;
   uint32_t elems = 0;
   size_t usage = 0;
 
   for (j = 0; j < VP_NE; j++) {
-    VP_ASSERT(g_live[j] ? (ent[j] != NULL && !vp_freed[j]) : (ent[j] == NULL || vp_freed[j] || !vp_spec_done || vp_in_op),
-              "C10.b an entry whose last reference went is freed by the end of the operation");
+    if (g_live[j] && !(j == VP_E && ent[j] == NULL))
+      VP_ASSERT(ent[j] != NULL && !vp_freed[j], "C10.b an entry that is still referenced is never freed");
+    if (!g_live[j] && ent[j] != NULL)
+      VP_ASSERT(vp_freed[j], "C10.b an entry whose last reference went is freed inside the critical section");
     if (g_live[j] && ent[j] != NULL && !vp_freed[j]) {
       VP_ASSERT(ent[j]->refs == g_refs[j], "C10.b inv: refs == cache reference + outstanding handles");
       VP_ASSERT(ent[j]->in_cache == g_in[j], "C10.b inv: in_cache as expected");
@@ -242,10 +269,10 @@ vp_inv(void) {
   vp_walk_list(&sh->list, 0);
   vp_walk_list(&sh->in_use, 1);
 
-  VP_ASSERT(sh->table.length == VP_TABLEN && sh->table.list == &vp_tab[VP_S][0], "C10.b inv: table not resized at this size");
+  VP_ASSERT(sh->table.length == VP_TABLEN && sh->table.list == &VP_TAB[0], "C10.b inv: table not resized at this size");
   VP_ASSERT(sh->table.elems == elems, "C10.b inv: elems == number of cached entries");
   for (b = 0; b < VP_TABLEN; b++) {
-    lru_handle_t *p = vp_tab[VP_S][b];
+    lru_handle_t *p = VP_TAB[b];
     for (steps = 0; steps < VP_NE; steps++) {
       if (p == NULL)
         break;
@@ -269,11 +296,14 @@ vp_inv(void) {
       VP_ASSERT(((seen >> j) & 1u) == (unsigned)(g_in[j] != 0), "C10.b inv: the table contains exactly the cached entries");
   VP_ASSERT(sh->usage == usage, "C10.b inv: usage == sum of the charges of cached entries");
   VP_ASSERT(sh->capacity == g_cap, "capacity immutable");
+#ifdef VP_API
   VP_ASSERT(vp_lru.last_id == g_last_id, "last_id as expected");
+#endif
 }
 
 static void
 vp_others_untouched(void) {
+#ifdef VP_API
   int i;
   for (i = 0; i < LDB_SHARDS; i++) {
     if (i != VP_S) {
@@ -285,6 +315,7 @@ vp_others_untouched(void) {
                 "C10.b other shards untouched");
     }
   }
+#endif
 }
 
 /* ---- ghost semantics ----------------------------------------------------- */
@@ -402,7 +433,7 @@ vp_spec(void) {
 #ifdef VP_ENV
 static void
 vp_environment(void) {
-  lru_shard_t *sh = &vp_lru.shard[VP_S];
+  lru_shard_t *sh = VP_SH;
   int what = vp_u8(), j = vp_u8(), jj;
   VP_ASSUME(what <= 2 && j < VP_E);
   vp_env = 1;
@@ -412,13 +443,13 @@ vp_environment(void) {
         /* erases entry jj (real code) */
         ldb_slice_t k;
         ldb_slice_set(&k, &g_key[jj], 1);
-        lru_shard_finish(sh, lru_table_remove(&sh->table, &k, g_hash[jj]));
         g_finish(jj);
+        lru_shard_finish(sh, lru_table_remove(&sh->table, &k, g_hash[jj]));
         VP_WITNESS("env-erased");
       } else if (what == 2 && g_refs[jj] < 3) {
         /* looks entry jj up and keeps the handle */
-        lru_shard_ref(sh, ent[jj]);
         g_ref(jj);
+        lru_shard_ref(sh, ent[jj]);
         VP_WITNESS("env-holds");
       }
     }
@@ -431,11 +462,17 @@ vp_environment(void) {
 static int
 vp_mutex_index(const ldb_mutex_t *m) {
   int i, r = -1;
+#ifdef VP_API
   for (i = 0; i < LDB_SHARDS; i++)
     if (m == &vp_lru.shard[i].mutex)
       r = i;
   if (m == &vp_lru.id_mutex)
     r = LDB_SHARDS;
+#else
+  (void)i;
+  if (m == &vp_shard.mutex)
+    r = VP_S;
+#endif
   return r;
 }
 
@@ -480,7 +517,6 @@ ldb_mutex_unlock(ldb_mutex_t *m) {
   vp_nheld--;
   if (i == VP_S) {
     /* every effect of the operation is complete inside the critical section */
-    vp_in_op = 2;
     vp_inv();
   }
 }
@@ -490,6 +526,7 @@ static void
 vp_build(void) {
   int i, j, b;
   lru_shard_t *sh;
+#ifdef VP_API
   for (i = 0; i < LDB_SHARDS; i++) {
     lru_shard_t *o = &vp_lru.shard[i];
     o->capacity = 0;
@@ -505,7 +542,17 @@ vp_build(void) {
   g_last_id = vp_u64();
   VP_ASSUME(g_last_id < UINT64_MAX);
   vp_lru.last_id = g_last_id;
-  sh = &vp_lru.shard[VP_S];
+#else
+  vp_shard.usage = 0;
+  vp_shard.list.next = &vp_shard.list; vp_shard.list.prev = &vp_shard.list;
+  vp_shard.in_use.next = &vp_shard.in_use; vp_shard.in_use.prev = &vp_shard.in_use;
+  vp_shard.table.length = VP_TABLEN;
+  vp_shard.table.elems = 0;
+  vp_shard.table.list = &vp_tab1[0];
+  for (b = 0; b < VP_TABLEN; b++)
+    vp_tab1[b] = NULL;
+#endif
+  sh = VP_SH;
   g_cap = vp_u16();
   sh->capacity = g_cap;
   for (j = 0; j < 4; j++)
@@ -525,6 +572,7 @@ vp_build(void) {
     g_hash[j] = ldb_hash(&g_key[j], 1, 0);
     g_charge[j] = vp_u8();
     g_in[j] = vp_bool();
+    VP_ASSUME(g_cap > 0 || !g_in[j]);   /* capacity 0 never caches anything */
     g_refs[j] = vp_u8();
     VP_ASSUME(g_refs[j] >= 1 && g_refs[j] <= 3);
     for (i = 0; i < j; i++)
@@ -550,12 +598,12 @@ vp_build(void) {
       }
       for (b = 0; b < VP_TABLEN; b++) {
         if ((g_hash[j] & (VP_TABLEN - 1)) == (uint32_t)b) {
-          if (front || vp_tab[VP_S][b] == NULL) {
-            e->next_hash = vp_tab[VP_S][b];
-            vp_tab[VP_S][b] = e;
+          if (front || VP_TAB[b] == NULL) {
+            e->next_hash = VP_TAB[b];
+            VP_TAB[b] = e;
           } else {
             /* chain has at most VP_E - 1 <= 2 entries before this one */
-            lru_handle_t *t = vp_tab[VP_S][b];
+            lru_handle_t *t = VP_TAB[b];
             if (t->next_hash != NULL)
               t = t->next_hash;
             t->next_hash = e;
@@ -585,13 +633,23 @@ harness(void) {
 
 #if VP_OP == VP_OP_INSERT
   op_charge = vp_u8();
+#ifdef VP_API
   h = ldb_lru_insert(&vp_lru, &key, &vp_valobj[VP_E], op_charge, vp_deleter);
+#else
+  h = lru_shard_insert(&vp_shard, &key, ldb_lru_hash(&key), &vp_valobj[VP_E], op_charge, vp_deleter);
+#endif
   VP_ASSERT(h != NULL && h == ent[VP_E], "insert returns the new entry");
   VP_ASSERT(ldb_lru_value(h) == (void *)&vp_valobj[VP_E], "handle carries the value");
   VP_ASSERT(vp_locks[VP_S] == 1, "C10.b insert takes the key's shard mutex once");
-  if (g_live[0] == 0 && VP_E > 0) VP_WITNESS("insert-freed-old");
+#if VP_E > 0
+  if (g_live[0] == 0) VP_WITNESS("insert-freed-old");
+#endif
 #elif VP_OP == VP_OP_LOOKUP
+#ifdef VP_API
   h = ldb_lru_lookup(&vp_lru, &key);
+#else
+  h = lru_shard_lookup(&vp_shard, &key, ldb_lru_hash(&key));
+#endif
   VP_ASSERT(vp_locks[VP_S] == 1, "C10.b lookup takes the key's shard mutex once");
   if (exp_lookup < 0) {
     VP_ASSERT(h == NULL, "lookup: miss");
@@ -600,7 +658,9 @@ harness(void) {
     for (j = 0; j < VP_E; j++)
       if (j == exp_lookup)
         VP_ASSERT(h == ent[j], "lookup: the cached entry with that key");
+#if VP_E > 0
     VP_WITNESS("lookup-hit");
+#endif
   }
 #elif VP_OP == VP_OP_RELEASE
   op_h = vp_u8();
@@ -611,37 +671,57 @@ harness(void) {
       h = ent[j];
     }
   }
+#ifdef VP_API
   ldb_lru_release(&vp_lru, h);
+#else
+  lru_shard_release(&vp_shard, h);
+#endif
   VP_ASSERT(vp_locks[VP_S] == 1, "C10.b release takes the entry's shard mutex once");
   for (j = 0; j < VP_E; j++)
     if (j == op_h && !g_live[j]) VP_WITNESS("release-last");
   for (j = 0; j < VP_E; j++)
     if (j == op_h && g_live[j] && g_refs[j] == 1) VP_WITNESS("release-to-lru");
 #elif VP_OP == VP_OP_ERASE
+#ifdef VP_API
   ldb_lru_erase(&vp_lru, &key);
+#else
+  lru_shard_erase(&vp_shard, &key, ldb_lru_hash(&key));
+#endif
   VP_ASSERT(vp_locks[VP_S] == 1, "C10.b erase takes the key's shard mutex once");
   (void)h;
 #elif VP_OP == VP_OP_PRUNE
+#ifdef VP_API
   ldb_lru_prune(&vp_lru);
   for (j = 0; j < LDB_SHARDS; j++)
     VP_ASSERT(vp_locks[j] == 1, "C10.b prune takes every shard mutex once");
+#else
+  lru_shard_prune(&vp_shard);
+  VP_ASSERT(vp_locks[VP_S] == 1, "C10.b prune takes the shard mutex once");
+#endif
   VP_ASSERT(g_nlru == 0, "prune leaves no unreferenced entry");
   (void)h;
 #elif VP_OP == VP_OP_USAGE
   {
+#ifdef VP_API
     size_t u = ldb_lru_usage(&vp_lru);
     for (j = 0; j < LDB_SHARDS; j++)
       VP_ASSERT(vp_locks[j] == 1, "C10.b usage reads every shard's usage under its mutex");
+#else
+    size_t u = lru_shard_usage(&vp_shard);
+    VP_ASSERT(vp_locks[VP_S] == 1, "C10.b usage is read under the shard mutex");
+#endif
     VP_ASSERT(u == exp_usage, "usage == sum of charges of cached entries");
   }
   (void)h;
 #else
+#ifdef VP_API
   {
     uint64_t id = ldb_lru_id(&vp_lru);
     VP_ASSERT(vp_locks[LDB_SHARDS] == 1 && vp_locks[VP_S] == 0, "C10.b id takes the id mutex");
     g_last_id++;
     VP_ASSERT(id == g_last_id, "id: fresh");
   }
+#endif
   (void)h;
 #endif
 
@@ -660,7 +740,9 @@ harness(void) {
   for (j = 0; j < VP_NE; j++)
     VP_ASSERT(vp_freed[j] == (ent[j] != NULL && !g_live[j]), "C10.b freed exactly the entries whose last reference went");
   VP_ASSERT(vp_deleter_locked, "deleter runs inside the shard's critical section (LevelDB behaviour)");
+#if VP_E > 0 && (VP_OP == VP_OP_INSERT || VP_OP == VP_OP_RELEASE || VP_OP == VP_OP_ERASE || VP_OP == VP_OP_PRUNE)
   for (j = 0; j < VP_E; j++)
     if (vp_freed[j]) VP_WITNESS("freed");
+#endif
   VP_WITNESS("end");
 }
